@@ -64,6 +64,7 @@ type beh struct {
 	Recv    string // success | error | async | sentinel (v2: success status carrying the sentinel)
 	Ack     []byte // v1: full acknowledgement bytes; v2: app acknowledgement bytes
 	CbFails bool   // ack / timeout / send callbacks return an error
+	Typed   *channeltypes.Acknowledgement // v1: return this channeltypes.Acknowledgement (its own Success()) instead of customAck
 }
 
 // customAck is an exported.Acknowledgement with arbitrary bytes and success flag.
@@ -173,6 +174,14 @@ func newWorld(t *testing.T, r *hx.Rng) *W {
 	w.script["d-cbfail"] = beh{Writes: 1, Recv: "success", Ack: ackOK, CbFails: true}
 	w.script["d-emptyack"] = beh{Writes: 1, Recv: "success", Ack: []byte{}}
 	w.script["d-sent"] = beh{Writes: 1, Recv: "sentinel", Ack: ackOK}
+	// the standard acknowledgement type with its own Success(): a result, a standard error, and an application-built
+	// error acknowledgement with an EMPTY error string (still an error acknowledgement: state must be discarded)
+	tOK := channeltypes.NewResultAcknowledgement([]byte("r3"))
+	tErr := channeltypes.NewErrorAcknowledgement(fmt.Errorf("typed failure"))
+	tEmpty := channeltypes.Acknowledgement{Response: &channeltypes.Acknowledgement_Error{Error: ""}}
+	w.script["d-tok"] = beh{Writes: 2, Recv: "success", Ack: tOK.Acknowledgement(), Typed: &tOK}
+	w.script["d-terr"] = beh{Writes: 6, Recv: "error", Ack: tErr.Acknowledgement(), Typed: &tErr}
+	w.script["d-tempty"] = beh{Writes: 7, Recv: "error", Ack: tEmpty.Acknowledgement(), Typed: &tEmpty}
 	for _, k := range w.dataKeys() {
 		w.data.id(k)
 	}
@@ -297,6 +306,9 @@ func (w *W) install() {
 			b := w.script[string(p.Data)]
 			w.move(ctx, ci, b.Writes)
 			w.cbs = append(w.cbs, cbEntry{ci, []any{"recv1", w.ids.id(p.DestinationPort), w.ids.id(p.DestinationChannel), hx.U(p.Sequence)}})
+			if b.Typed != nil {
+				return *b.Typed
+			}
 			switch b.Recv {
 			case "async":
 				return nil
